@@ -94,6 +94,53 @@ def _methods(rep, cx, ra, rb, rd, tag=""):
 
 
 
+def sfield_some(v):
+    if isinstance(v, tuple) and v[:3] == ("struct", "core::option::Option", "Some"):
+        return v[3][0][1]
+    return None
+
+
+def _compile_rules(rep, cx, tag=""):
+    """R10.h: compiling always rebuilds the artefact from the *current* program and helpers (compiled
+    code bakes helper addresses in, so a stale artefact would make results depend on the call history)"""
+    F = cx.F
+    rh = rep.rule("R10.h", "jit_compile / cranelift_compile: every Ok path stores an artefact freshly built from the current program and helpers", floor=3)
+    OPAQUE = ("JitMemory::new", "CraneliftCompiler::new", "compile_function", "::jit_compile", "::cranelift_compile")
+    for kind in KINDS:
+        for meth, field, ctor in (("jit_compile", "jit", "JitMemory::new"), ("cranelift_compile", "cranelift_prog", "compile_function")):
+            path = "%s::%s" % (kind, meth)
+            if path not in F.fns or (tag and meth == "jit_compile"):
+                continue
+            ev = symex.Evaluator(F, opaque_calls=lambda p: p.endswith(OPAQUE) and p != path)
+            key, sv, outs = run_method(ev, F, path, [])
+            base = flat(sv)
+            probs, n_ok, delegated = [], 0, False
+            for v, s in outs:
+                calls = [e for e in s.effects if e[0] == "call" and isinstance(e[1], str)]
+                if result_kind(v) == "?" and len(calls) == 1 and calls[0][1].endswith("::" + meth) and v == calls[0][3] and "'parent'" in repr(calls[0][2][0]):
+                    delegated = True
+                    continue
+                if result_kind(v) != "Ok":
+                    continue
+                n_ok += 1
+                cur = flat(s.env.get(key))
+                art = [(k, x) for k, x in cur.items() if k.split(".")[-1] == field]
+                built = [e for e in calls if e[1].endswith(ctor)]
+                good = False
+                if len(art) == 1 and len(built) == 1:
+                    val = art[0][1]
+                    pay = sfield_some(val)
+                    good = val != base.get(art[0][0]) and pay is not None and pay[0] == "obj" and str(pay[1]).startswith("ok(") and \
+                        str(built[0][3][1])[:20] in str(pay[1])
+                    srcs = repr([e[2] for e in calls if e[1].endswith(ctor) or e[1].endswith("CraneliftCompiler::new")])
+                    good = good and "prog" in srcs and "helpers" in srcs and "self." in srcs
+                if not good:
+                    probs.append("an Ok path leaves %s as it was or does not build it from self.prog / self.helpers" % field)
+            rep.ob(rh, path + tag, (delegated and not probs and n_ok == 0) or (n_ok >= 1 and not probs), "%s: Ok paths" % path,
+                   expected="%s := Some(freshly compiled from the current program and helpers) on every Ok path, or plain delegation to the parent VM" % field,
+                   found=sorted(set(probs)) or ("delegates" if delegated else "%d Ok paths rebuild" % n_ok))
+
+
 def run(rep, tier):
     cx = Ctx(rep, "std")
     F = cx.F
@@ -103,6 +150,8 @@ def run(rep, tier):
     _methods(rep, cx, ra, rb, rd)
     # the Cranelift artefact exists only with the `cranelift` feature: same rules on that configuration
     _methods(rep, Ctx(rep, "cranelift"), ra, rb, rd, tag="[cranelift]")
+    _compile_rules(rep, cx)
+    _compile_rules(rep, Ctx(rep, "cranelift"), tag="[cranelift]")
 
     # R10.c who may write prog / verifier
     rc = rep.rule("R10.c", "only new / set_program / set_verifier write the program and verifier fields", floor=2)
